@@ -1139,8 +1139,8 @@ class Client():
                         self.redirects.append(copy.copy(response))
                         try:
                             self.redirect()
-                        except (ValueError, AttributeError, httping.HTTPException) as ex:
-                            # missing, malformed or refused redirect location
+                        except (ValueError, AttributeError, OSError, httping.HTTPException) as ex:
+                            # missing, malformed, unresolvable or refused redirect location
                             response['errored'] = True
                             response['error'] = str(ex)
                             response['redirects'] = copy.copy(self.redirects)
